@@ -14,6 +14,127 @@ use std::sync::Mutex;
 use std::time::Instant;
 
 pub const NSHARDS: usize = 16;
+
+// ------------------------------------------------------------------------------------ watchdog
+// The hook's iteration budget turns a stuck *main loop* into a verdict, but a scanner that stops
+// advancing inside one lexer call never returns. Every worker registers the case it is checking;
+// a watchdog thread notices a case that is far beyond any plausible lexing time.
+type Slot = std::sync::Arc<Mutex<Option<(Instant, Case)>>>;
+static SLOTS: Mutex<Vec<Slot>> = Mutex::new(Vec::new());
+thread_local! {
+    static MY_SLOT: std::cell::RefCell<Option<Slot>> = const { std::cell::RefCell::new(None) };
+}
+fn my_slot() -> Slot {
+    MY_SLOT.with(|c| {
+        let mut c = c.borrow_mut();
+        if c.is_none() {
+            let s: Slot = std::sync::Arc::new(Mutex::new(None));
+            SLOTS.lock().unwrap().push(s.clone());
+            *c = Some(s);
+        }
+        c.as_ref().unwrap().clone()
+    })
+}
+fn slot_enter(case: &Case) {
+    // cloning is cheap next to lexing three variants; skip the copy for huge inputs
+    if case.texts.iter().map(|t| t.len()).sum::<usize>() < (1 << 20) {
+        *my_slot().lock().unwrap() = Some((Instant::now(), case.clone()));
+    }
+}
+fn slot_leave() {
+    *my_slot().lock().unwrap() = None;
+}
+/// check a case under the watchdog
+pub fn guarded_check(prop: &dyn Property, case: &Case) -> Verdict {
+    slot_enter(case);
+    let v = prop.check(case);
+    slot_leave();
+    v
+}
+pub const HANG_SECS: u64 = 20;
+pub const RSS_LIMIT: u64 = 12 << 30;
+pub fn rss_bytes() -> u64 {
+    std::fs::read_to_string("/proc/self/statm").ok().and_then(|s| s.split_whitespace().nth(1).and_then(|x| x.parse::<u64>().ok())).map_or(0, |pages| pages * 4096)
+}
+/// used by `verif replay`: a replayed case must return within 30 s and 4 GiB, else exit 3
+pub fn start_replay_guard() {
+    std::thread::spawn(|| {
+        let t0 = Instant::now();
+        loop {
+            std::thread::sleep(std::time::Duration::from_millis(100));
+            if t0.elapsed().as_secs() >= 30 || rss_bytes() > (4 << 30) {
+                eprintln!("replay guard: the case did not return within 30 s / 4 GiB");
+                std::process::exit(3);
+            }
+        }
+    });
+}
+/// Spawn the watchdog. A case that has not returned after HANG_SECS is saved as a replay file.
+/// For C01 the replay is re-run in a fresh process; if it does not return there either (30 s),
+/// that is the violation "never hangs" (the input is a few hundred bytes; normal lexing takes
+/// microseconds). In every other situation the run is inconclusive (exit 2).
+pub fn start_watchdog(prop_id: &'static str, root: PathBuf, seed: u64) {
+    std::thread::spawn(move || loop {
+        std::thread::sleep(std::time::Duration::from_millis(500));
+        let mut why = format!("a lexer call did not return within {HANG_SECS} s");
+        let mut stuck: Option<Case> = {
+            let g = SLOTS.lock().unwrap();
+            g.iter().find_map(|s| s.lock().unwrap().as_ref().filter(|(t, _)| t.elapsed().as_secs() >= HANG_SECS).map(|(_, c)| c.clone()))
+        };
+        if stuck.is_none() && rss_bytes() > RSS_LIMIT {
+            // unbounded allocation: blame the case that has been running longest
+            let g = SLOTS.lock().unwrap();
+            stuck = g.iter().filter_map(|s| s.lock().unwrap().clone()).min_by_key(|(t, _)| *t).map(|(_, c)| c);
+            why = format!("the process grew beyond {} GiB while a lexer call was running (unbounded allocation)", RSS_LIMIT >> 30);
+            if stuck.is_none() {
+                eprintln!("INCONCLUSIVE: memory guard hit ({why}) with no case in flight");
+                std::process::exit(2);
+            }
+        }
+        let Some(case) = stuck else { continue };
+        let dir = root.join("replays").join("found");
+        let _ = std::fs::create_dir_all(&dir);
+        let h = hash_str(&format!("hang|{prop_id}|{:?}", case));
+        let p = dir.join(format!("{prop_id}-hang-{h:016x}.json"));
+        let v = json!({"property": prop_id, "rule": "hang", "signature": "hang", "message": why.clone(), "found_by": "watchdog", "seed": seed, "case": case_to_json(&case)});
+        let _ = std::fs::write(&p, serde_json::to_string_pretty(&v).unwrap());
+        eprintln!("watchdog: {why}; case saved as {}", p.display());
+        if prop_id == "C01" {
+            let exe = std::env::current_exe().unwrap();
+            if let Ok(mut child) = std::process::Command::new(exe).arg("replay").arg(&p).arg("--property").arg("C01").stdout(std::process::Stdio::null()).stderr(std::process::Stdio::null()).spawn() {
+                let t0 = Instant::now();
+                loop {
+                    let confirmed = match child.try_wait() {
+                        // exit 3 = the replay guard of the child fired; a signal = it died allocating
+                        Ok(Some(st)) if st.code() == Some(3) || st.code().is_none() => true,
+                        Ok(Some(_)) => {
+                            eprintln!("INCONCLUSIVE: the case returned when replayed in a fresh process");
+                            std::process::exit(2);
+                        }
+                        Ok(None) if t0.elapsed().as_secs() >= 40 => {
+                            let _ = child.kill();
+                            true
+                        }
+                        Ok(None) => false,
+                        Err(_) => std::process::exit(2),
+                    };
+                    match confirmed {
+                        true => {
+                            let ev = json!({"property_id": "C01", "tier": "quick", "seed": seed, "level": "exploration", "coverage": {"evaluations": 1, "distinct_nontrivial": 2, "rule": "run stopped by the watchdog: a lexer call never returned (reproduced in a fresh process)", "samples": [case.texts.first().cloned().unwrap_or_default()]}, "wall_s": HANG_SECS as f64 + 30.0, "violations": 1});
+                            let _ = std::fs::write(root.join("evidence").join("C01.json"), serde_json::to_string_pretty(&ev).unwrap());
+                            println!("  rule hang [watchdog]: {why}; replayed in a fresh process it again did not return within 30 s / 4 GiB; input {:?}", trunc(case.t0(), 200));
+                            println!("VIOLATION property=C01 replay={}", p.display());
+                            std::process::exit(1);
+                        }
+                        false => std::thread::sleep(std::time::Duration::from_millis(200)),
+                    }
+                }
+            }
+        }
+        eprintln!("INCONCLUSIVE: a lexer call hangs on the saved case (that is C01's business); this check cannot continue");
+        std::process::exit(2);
+    });
+}
 const SAMPLES: usize = 8;
 
 #[derive(Default)]
@@ -310,7 +431,7 @@ pub fn run(prop: &dyn Property, kf: &Known, cfg: &RunCfg) -> Outcome {
                 continue;
             }
             replayed += 1;
-            let vd = prop.check(&case);
+            let vd = guarded_check(prop, &case);
             let fail = triage(prop, kf, &vd, &mut stats);
             stats.add(&vd);
             if let Some(v) = fail {
@@ -338,7 +459,7 @@ pub fn run(prop: &dyn Property, kf: &Known, cfg: &RunCfg) -> Outcome {
                                 break;
                             }
                             sw.run_chunk(c, &mut |case: Case| {
-                                let vd = prop.check(&case);
+                                let vd = guarded_check(prop, &case);
                                 let fail = triage(prop, kf, &vd, &mut st);
                                 st.add(&vd);
                                 if let Some(v) = fail {
@@ -405,7 +526,7 @@ pub fn run(prop: &dyn Property, kf: &Known, cfg: &RunCfg) -> Outcome {
                     let res = runner.run(&strat, |bytes| {
                         let mut s = Src::new(&bytes);
                         let case = prop.generate(&mut s);
-                        let vd = prop.check(&case);
+                        let vd = guarded_check(prop, &case);
                         let counting = !failed.load(Ordering::Relaxed);
                         let mut tmp = Stats::default();
                         let fail = if counting {
